@@ -186,10 +186,7 @@ func (k *Sink) SolveAll(ctx *Ctx, cfg *SolverConfig) []*ObResult {
 		r.Seconds += res.Seconds
 		if inst.Vacuity {
 			// unsat means the hypotheses are contradictory
-			if res.Status == Unsat {
-				r.Status = "vacuous"
-				r.Detail = "hypotheses are contradictory"
-			} else {
+			if res.Status != Unsat {
 				r.Discharged++
 				r.Backends["vacuity-"+res.Status.String()]++
 			}
@@ -218,6 +215,14 @@ func (k *Sink) SolveAll(ctx *Ctx, cfg *SolverConfig) []*ObResult {
 				r.FailQuery = res.Query
 				r.FailEvents = inst.Events
 			}
+		}
+	}
+	for _, r := range agg {
+		// a cut point is vacuous only if no path reaches it with
+		// satisfiable hypotheses
+		if r.Kind == "vacuity" && r.Discharged == 0 {
+			r.Status = "vacuous"
+			r.Detail = "hypotheses are contradictory on every path"
 		}
 	}
 	var out []*ObResult
